@@ -82,9 +82,13 @@ func checkC16(w *Worker) {
 		for i, p := range c16Db {
 			files[p] = chainBook(i+1, L)
 		}
+		realNow := time.Now().UTC()
+		realToday := time.Date(realNow.Year(), realNow.Month(), realNow.Day(), 0, 0, 0, 0, time.UTC)
 		for i, p := range c16Log {
 			var sb strings.Builder
-			for di, d := range []time.Time{c16Today[0], c16Today[2], time.Date(2001, 6, 7, 0, 0, 0, 0, time.UTC)} {
+			// the last heading is the real current date: it is what `-b yesterday -e today` selects when
+			// neither the flag nor the configuration file sets the current date (documented default: now)
+			for di, d := range []time.Time{c16Today[0], c16Today[2], time.Date(2001, 6, 7, 0, 0, 0, 0, time.UTC), realToday} {
 				sb.WriteString(fmt.Sprintf("%s:\n  r: %d\n  m%d: 1\n", d.Format(effFmt), (i+1)*10+di, di))
 			}
 			files[p] = sb.String()
@@ -154,7 +158,7 @@ func checkC16(w *Worker) {
 			nsrc += btoi(flagSet[i]) + btoi(envSet[i]) + btoi(cfgSet[i])
 		}
 		x.Case(fmt.Sprint(cfgLoc, L, flagSet, envSet, cfgSet), nsrc >= 2)
-		for _, cmd := range [][]string{{"--no-color", "csv", "log"}, {"--no-color", "-b", "today", "-e", "today", "reg"}} {
+		for _, cmd := range [][]string{{"--no-color", "csv", "log"}, {"--no-color", "-b", "today", "-e", "today", "reg"}, {"--no-color", "-b", "yesterday", "-e", "today", "reg"}} {
 			act := appCase{Args: append(append([]string{}, global...), cmd...), Files: files, Env: env, Mod: patchDefault}
 			exp := appCase{Args: append(append([]string{}, ref...), cmd...), Files: files, Mod: patchDefault}
 			if cfgLoc == 1 {
@@ -164,6 +168,10 @@ func checkC16(w *Worker) {
 			}
 			ra := runApp(act)
 			re := runApp(exp)
+			if n2 := time.Now().UTC(); n2.Day() != realNow.Day() {
+				x.Case("skip: the date changed during the case", false)
+				return
+			}
 			x.Obs(ra.Key())
 			x.Sample(map[string]interface{}{"cmd": act.shell(), "equivalent_flags_only": exp.shell(), "stdout": ra.Stdout, "error": ra.Err})
 			if ra.Key() != re.Key() {
